@@ -212,6 +212,13 @@ def main():
     for ts, rs in ((("P", 1, {"include_boundary_dofs": True}), ("DP", 0, {})), (("DP", 1, {}), ("P", 1, {"include_boundary_dofs": True})), (("DP", 0, {}), ("DP", 1, {}))):
         for m1, m2 in (("pair:2:012:120", "pair:1:012:201"), ("tetra", "fan3")):
             run.add("pipeline.two-grids[%s|%s %s%dx%s%d]" % (m1, m2, ts[0], ts[1], rs[0], rs[1]), "post", PL.ob_pipeline, m1, ts, rs, None, m2)
+    # trial / test spaces with swapped normals on some domains only and a colour-sorted element order that is not the identity (P1 on the 2x2 screen):
+    # the normal multiplier must follow the element, not its position in the launch
+    swp = ("P", 1, {"include_boundary_dofs": True, "swapped_normals": [2]})
+    sdi = [1, 1, 2, 2, 1, 3, 2, 2]
+    run.add("pipeline.two-grids[pair|screen2 DP0 x P1 swapped normals on trial domain 2]", "post", PL.ob_pipeline, "pair:2:012:120", ("DP", 0, {}), swp, None, "screen2",
+            "default_scalar", "-", sdi)
+    run.add("pipeline.two-grids[screen2|pair P1 swapped normals on test domain 2 x DP0]", "post", PL.ob_pipeline, "screen2", swp, ("DP", 0, {}), sdi, "pair:1:012:201")
     for key, case in (("laplace_single_layer", "noparam"), ("laplace_double_layer", "noparam"), ("helmholtz_single_layer", "ki!=0"), ("helmholtz_double_layer", "ki!=0"),
                       ("helmholtz_double_layer", "ki==0"), ("modified_helmholtz_single_layer", "w"), ("modified_helmholtz_double_layer", "w")):
         for ts, rs in ((("P", 1, {"include_boundary_dofs": True}), ("DP", 0, {})), (("DP", 1, {}), ("P", 1, {"include_boundary_dofs": True}))):
